@@ -95,7 +95,9 @@ def build_obj(spec, repo_root):
     cls = getattr(mod, name)
     fields = {k: realise(v, repo_root) for k, v in spec.fields.items()}
     if cd.construct:
-        obj = eval(cd.construct.format(**{k: repr(v) for k, v in fields.items()}), {name: cls, **vars(mod)})
+        env = {name: cls, **vars(mod)}
+        env.update({"__f_" + k: v for k, v in fields.items()})
+        obj = eval(cd.construct.format(**{k: "__f_" + k for k in fields}), env)
     else:
         obj = cls.__new__(cls)
     for k, v in fields.items():
